@@ -72,6 +72,8 @@ def run_http(ck):
                 r["body_text"] = bytes.fromhex(r["body"]).decode("utf8", "replace")
             except ValueError:
                 pass
+        worst["insert_error_texts"] = {str(o.get("e", 0)): ic.ERR_TEXTS[o.get("e", 0)] for o in worst.get("ops") or []
+                                       if o.get("t") == "ret" and not o.get("ok") and 0 <= o.get("e", 0) < len(ic.ERR_TEXTS)}
         ck.violation({"property": "C01", "kind": "an HTTP push was acknowledged although no successful INSERT held all of its rows (or it was never / twice answered)",
                       "explanation": "amon_step / one_answer_b / answered-after-drain (model/IngestSpec.v, model/IngestCases.v) reject the events observed on the real handlers: "
                                      "see the answer events and the done events of the blocks carrying the rows of that push",
